@@ -23,9 +23,10 @@ type loopRun struct {
 }
 
 type loopOutcome struct {
-	runs []loopRun
-	ret  string // "nil", "error:<name>", "exit", "stop", "other", or a rendering
-	why  string
+	runs  []loopRun
+	ret   string // "nil", "error:<name>", "exit", "stop", "other", or a rendering
+	why   string
+	final string // operand stack when the operator returns
 }
 
 // dictValue: the value stored under a key of the dictionary operand of the table.  The entry
@@ -72,6 +73,9 @@ func (c *Ctx) loopOperator(fn *ssa.Function, stack []sv, results []string, dictK
 		}
 		if v.k == svInt {
 			return "Integer"
+		}
+		if v.k == svBool {
+			return "Boolean"
 		}
 		if i := strings.Index(v.s, ":"); v.k == svSym && i > 0 {
 			return v.s[:i]
@@ -160,6 +164,7 @@ func (c *Ctx) loopOperator(fn *ssa.Function, stack []sv, results []string, dictK
 	}
 	ret := ev.runFunc(fn, []sv{{k: svAddr, s: "intp"}})
 	out.why = ev.why
+	out.final = ev.render(ev.mem["intp.Stack"])
 	if len(ret) == 1 {
 		switch {
 		case ret[0].k == svNil:
